@@ -19,8 +19,8 @@ CONSTANTS KnownDeviations
 TraceLog == ndJsonDeserialize(IOEnv.VF_TRACE)
 N == Len(TraceLog)
 
-VARIABLES l, fid, cverf, stale, cfg, T, bad, dev, stats
-vars == <<l, fid, cverf, stale, cfg, T, bad, dev, stats>>
+VARIABLES l, fid, cverf, stale, cfg, T, acked, hverf, seenverf, bad, dev, stats
+vars == <<l, fid, cverf, stale, cfg, T, acked, hverf, seenverf, bad, dev, stats>>
 
 Known(d) == d \in KnownDeviations
 EmptyFn == [x \in {} |-> 0]
@@ -43,15 +43,18 @@ NormOuts(S) == {[ok |-> o.ok, tree |-> Norm(o.tree)] : o \in S}
 
 VerfOf(p) == IF p \in DOMAIN cverf THEN cverf[p] ELSE ""
 MaxFS == cfg.maxfs
-Chown == Cur.euid = 0 /\ (Cur.hasuid \/ Cur.hasgid)
+Eff == Squash(cfg.squash, Cur.cflavor, Cur.cuid, Cur.cgid)
+EUid == Eff[1]
+EGid == Eff[2]
+Chown == EUid = 0 /\ (Cur.hasuid \/ Cur.hasgid)
 
 \* --------------------------------------------------------------- allowed outcomes
 Allowed ==
   CASE Cur.proc = "CREATE" ->
          CreateOut(PreT, P, Cur.name, Cur.ncls, Cur.how, Cur.hasmode, Cur.mode, Cur.hassize, Cur.size,
-                   Cur.verf, VerfOf(C), Cur.euid, Cur.egid)
-    [] Cur.proc = "MKDIR" -> MkdirOut(PreT, P, Cur.name, Cur.ncls, Cur.hasmode, Cur.mode, Cur.euid, Cur.egid)
-    [] Cur.proc = "SYMLINK" -> SymlinkOut(PreT, P, Cur.name, Cur.ncls, Cur.tgt, Cur.tgtc, Cur.tgtok, Cur.euid, Cur.egid)
+                   Cur.verf, VerfOf(C), EUid, EGid)
+    [] Cur.proc = "MKDIR" -> MkdirOut(PreT, P, Cur.name, Cur.ncls, Cur.hasmode, Cur.mode, EUid, EGid)
+    [] Cur.proc = "SYMLINK" -> SymlinkOut(PreT, P, Cur.name, Cur.ncls, Cur.tgt, Cur.tgtc, Cur.tgtok, EUid, EGid)
     [] Cur.proc = "REMOVE" -> RemoveOut(PreT, P, Cur.name, Cur.ncls)
     [] Cur.proc = "RMDIR" -> RmdirOut(PreT, P, Cur.name, Cur.ncls)
     [] Cur.proc = "RENAME" -> RenameOut(PreT, P, Cur.name, Cur.ncls, Cur.h2, Cur.name2, Cur.ncls2)
@@ -90,7 +93,9 @@ Allowed ==
 PropOf == CASE Cur.proc = "CREATE" /\ Kind(PreT, C) # "N" -> "C03"
             [] Cur.proc \in {"READ", "WRITE"} -> "C01"
             [] Cur.proc = "SETATTR" /\ Cur.hassize -> "C01"
-            [] OTHER -> "C02"
+            [] Cur.proc \in {"LOOKUP", "CREATE", "MKDIR", "SYMLINK", "REMOVE", "RMDIR", "RENAME", "READDIR", "READDIRPLUS",
+                             "GETATTR", "READLINK"} -> "C02"
+            [] OTHER -> "other"     \* not stated by a listed property: reported as a note only
 
 \* --------------------------------------------------------------- results of successful replies
 TypeName(k) == CASE k = "D" -> "DIR" [] k = "F" -> "REG" [] k = "L" -> "LNK" [] OTHER -> "?"
@@ -198,23 +203,89 @@ DevFor(b) ==
   IF b.prop = "C03" /\ Known("Dev_ExclusiveCreateIgnoresVerifier") /\ ExclIgnoresVerf
   THEN "Dev_ExclusiveCreateIgnoresVerifier" ELSE ""
 
-AllBad == OutcomeBad \cup ResultBad \cup StatusBad \cup AttrBad
+\* --------------------------------------------------------------- C08: read-only export
+MutProcs == {"SETATTR", "WRITE", "CREATE", "MKDIR", "SYMLINK", "MKNOD", "REMOVE", "RMDIR", "RENAME", "LINK", "COMMIT"}
+ROBad ==
+  IF ~cfg.ro THEN {}
+  ELSE (IF Cur.mut > 0 THEN {[prop |-> "C08", why |-> "read-only export: " \o Cur.proc \o " issued a modifying backend operation"]} ELSE {})
+       \cup (IF Norm(PostT) # Norm(PreT) \/ PostT # PreT THEN {[prop |-> "C08", why |-> "read-only export: the backend tree changed (" \o Cur.proc \o ")"]} ELSE {})
+       \cup (IF Cur.proc \in MutProcs /\ Cur.ok THEN {[prop |-> "C08", why |-> "read-only export: mutating procedure " \o Cur.proc \o " replied NFS3_OK"]} ELSE {})
+       \cup (IF Cur.proc = "ACCESS" /\ Cur.ok /\ (Cur.acc_mod \/ Cur.acc_ext \/ Cur.acc_del)
+             THEN {[prop |-> "C08", why |-> "read-only export: ACCESS granted MODIFY, EXTEND or DELETE"]} ELSE {})
+
+\* --------------------------------------------------------------- C11: ownership
+OwnerU == IF Cur.hasuid /\ EUid = 0 /\ Cur.how # "EXCLUSIVE" THEN Cur.uid ELSE EUid
+OwnerG == IF Cur.hasgid /\ EUid = 0 /\ Cur.how # "EXCLUSIVE" THEN Cur.gid ELSE EGid
+OwnBad ==
+  (IF Cur.proc \in {"CREATE", "MKDIR", "SYMLINK"} /\ Cur.ok /\ C \notin DOMAIN PreT /\ C \in DOMAIN PostT
+      /\ (PostT[C].uid # OwnerU \/ PostT[C].gid # OwnerG)
+   THEN {[prop |-> "C11", why |-> "new object from " \o Cur.proc \o " is not owned by the caller's effective identity"]} ELSE {})
+  \cup (IF EUid # 0 /\ Cur.proc # "RENAME" /\
+           \E p \in DOMAIN PostT : (p \notin DOMAIN PreT \/ PreT[p].uid # PostT[p].uid \/ PreT[p].gid # PostT[p].gid)
+                                     /\ (PostT[p].uid # EUid \/ PostT[p].gid # EGid)
+        THEN {[prop |-> "C11", why |-> "a caller whose effective uid is not 0 made the backend record another owner or group (" \o Cur.proc \o ")"]} ELSE {})
+  \cup (IF EUid # 0 /\ \E i \in DOMAIN Cur.calls : Cur.calls[i].op \in {"Chown", "Lchown"} /\ Cur.calls[i].err = ""
+                                                       /\ (Cur.calls[i].a # EUid \/ Cur.calls[i].b # EGid)
+        THEN {[prop |-> "C11", why |-> "chown with ids other than the caller's effective identity (" \o Cur.proc \o ")"]} ELSE {})
+
+FailedChanged == IF ~Cur.ok /\ PostT # PreT THEN {[prop |-> "C02", why |-> "a failed request changed the tree (" \o Cur.proc \o ")"]} ELSE {}
+
+AllBad == IF Cur.faulty THEN {}      \* an injected backend fault hit this request (crash profile)
+          ELSE IF Cur.rocheck THEN ROBad \cup FailedChanged
+          ELSE OutcomeBad \cup ResultBad \cup StatusBad \cup AttrBad \cup ROBad \cup OwnBad
 Explained(b) == DevFor(b) # ""
 
-Init == /\ l = 1 /\ fid = EmptyFn /\ cverf = EmptyFn /\ stale = {} /\ cfg = [maxfs |-> 0] /\ T = 65536
+Init == /\ l = 1 /\ fid = EmptyFn /\ cverf = EmptyFn /\ stale = {} /\ acked = EmptyFn /\ hverf = "" /\ seenverf = {} /\ cfg = [maxfs |-> 0, ro |-> FALSE, squash |-> ""] /\ T = 65536
         /\ bad = {} /\ dev = {}
-        /\ stats = [req |-> 0, ok |-> 0, fail |-> 0, hist |-> 0, attrs |-> 0]
+        /\ stats = [req |-> 0, ok |-> 0, fail |-> 0, hist |-> 0, attrs |-> 0, crash |-> 0]
 
 StepReset ==
   /\ Cur.ev = "reset"
   /\ fid' = EmptyFn /\ cverf' = EmptyFn /\ stale' = {} /\ cfg' = Cur.cfg /\ T' = Cur.T
+  /\ acked' = EmptyFn /\ hverf' = "" /\ seenverf' = seenverf \cup (IF hverf = "" THEN {} ELSE {hverf})
   /\ UNCHANGED <<bad, dev>>
   /\ stats' = [stats EXCEPT !.hist = @ + 1]
 
+\* --------------------------------------------------------------- C22: stable data, write verifier
+\* acked[p] = the bytes of p that a reply has acknowledged as stable (FILE_SYNC, or covered by a
+\* successful COMMIT): the file's contents right after that reply.
+StableNow == Cur.ok /\ ((Cur.proc = "WRITE" /\ R.committed = 2) \/ Cur.proc = "COMMIT") /\ Kind(PostT, P) = "F"
+NewAcked == IF StableNow THEN [p \in (DOMAIN acked) \cup {P} |-> IF p = P THEN PostT[P].d ELSE acked[p]] ELSE acked
+VerfBad == IF Cur.ok /\ Cur.proc \in {"WRITE", "COMMIT"} /\ R.verf # ""
+           THEN (IF hverf # "" /\ R.verf # hverf THEN {[prop |-> "C22", why |-> "write verifier changed during the life of a server instance"]} ELSE {})
+                \cup (IF hverf = "" /\ R.verf \in seenverf THEN {[prop |-> "C22", why |-> "write verifier repeated by a later server instance"]} ELSE {})
+           ELSE {}
+\* the request in flight when the crash hit (it failed): its range may hold old or new bytes
+InFlight(p, i) == /\ l > 1 /\ TraceLog[l - 1].ev = "req" /\ ~TraceLog[l - 1].ok /\ TraceLog[l - 1].proc = "WRITE"
+                  /\ TraceLog[l - 1].h = p /\ i > TraceLog[l - 1].off /\ i <= TraceLog[l - 1].off + Len(TraceLog[l - 1].data)
+DurOf(p) == LET S == {e \in Rng(Cur.dur) : e.p = p} IN IF S = {} THEN << >> ELSE (CHOOSE e \in S : TRUE).d
+CrashBad ==
+  UNION {
+    LET a == acked[p]
+        d == DurOf(p)
+    IN IF Len(d) < Len(a) \/ \E i \in 1..Len(a) : d[i] # a[i] /\ ~InFlight(p, i)
+       THEN {[prop |-> "C22", why |-> "data acknowledged as stable (FILE_SYNC / COMMIT) is missing from the backing store after a crash"]} ELSE {}
+    : p \in DOMAIN acked}
+
+StepCrash ==
+  /\ Cur.ev = "crash"
+  /\ UNCHANGED <<fid, cverf, stale, cfg, T, acked, hverf, seenverf, dev>>
+  /\ bad' = bad \cup {[l |-> l, prop |-> b.prop, why |-> b.why] : b \in CrashBad}
+  /\ stats' = [stats EXCEPT !.crash = @ + 1]
+
+\* a run-time configuration change: nothing else may change
+StepCfg ==
+  /\ Cur.ev = "cfg"
+  /\ cfg' = Cur.cfg
+  /\ UNCHANGED <<fid, cverf, stale, T, acked, hverf, seenverf, dev, stats>>
+  /\ bad' = bad \cup (IF TreeOf(Cur.tree) # PreT THEN {[l |-> l, prop |-> "C02", why |-> "a configuration update changed the tree"]} ELSE {})
+
 StepReq ==
   /\ Cur.ev = "req"
-  /\ UNCHANGED <<cfg, T>>
-  /\ bad' = bad \cup {[l |-> l, prop |-> b.prop, why |-> b.why] : b \in {x \in AllBad : ~Explained(x)}}
+  /\ UNCHANGED <<cfg, T, seenverf>>
+  /\ acked' = NewAcked
+  /\ hverf' = IF hverf = "" /\ Cur.ok /\ Cur.proc \in {"WRITE", "COMMIT"} THEN R.verf ELSE hverf
+  /\ bad' = bad \cup {[l |-> l, prop |-> b.prop, why |-> b.why] : b \in {x \in (AllBad \cup VerfBad) : ~Explained(x)}}
   /\ dev' = dev \cup {[l |-> l, prop |-> b.prop, name |-> DevFor(b)] : b \in {x \in AllBad : Explained(x)}}
   /\ fid' = NewFid
   /\ cverf' = NewVerf
@@ -222,11 +293,11 @@ StepReq ==
   /\ stats' = [stats EXCEPT !.req = @ + 1, !.ok = @ + (IF Cur.ok THEN 1 ELSE 0), !.fail = @ + (IF Cur.ok THEN 0 ELSE 1),
                             !.attrs = @ + Len(Attrs)]
 
-Consume == l <= N /\ l' = l + 1 /\ (StepReset \/ StepReq)
+Consume == l <= N /\ l' = l + 1 /\ (StepReset \/ StepReq \/ StepCfg \/ StepCrash)
 
 Finish == /\ l = N + 1 /\ l' = N + 2
           /\ JsonSerialize(IOEnv.VF_RESULT, [n |-> N, consumed |-> l - 1, bad |-> bad, dev |-> dev, drift |-> {}, stats |-> stats])
-          /\ UNCHANGED <<fid, cverf, stale, cfg, T, bad, dev, stats>>
+          /\ UNCHANGED <<fid, cverf, stale, cfg, T, acked, hverf, seenverf, bad, dev, stats>>
 
 Next == Consume \/ Finish
 Spec == Init /\ [][Next]_vars
